@@ -354,16 +354,17 @@ theorem mul_consts_headroom :
 `x >> 26` truncates: still no lane wrap, but a wrong value) -/
 theorem new_headroom : (Dalek.Gen.Avx2Field.new.norm (rep 20 (ub (2 ^ 58 - 1)))).isSome = true := by decide +kernel
 
-/-- `mul`: the documented pair `(b_x, b_y) < (2.5, 1.75)` is tight in `b_y` (`19 y` must fit a u32 lane:
-`b_y < 1.76` fails) and nearly tight in `b_x` (`b_x < 3.0` fails) -/
-theorem mul_bounds_tight :
-    (Dalek.Gen.Avx2Field.mul.norm (Avx2Field.lanes 5656 1000 ++ Avx2Field.lanes 3387 1000)).isSome = false ∧
-    (Dalek.Gen.Avx2Field.mul.norm (Avx2Field.lanes 8 1 ++ Avx2Field.lanes 3363 1000)).isSome = false := by
+/-- `mul`: the source remarks that the bound `b_x < 2.5` "is slightly sloppy" since `b_y < 1.75` is needed anyway;
+indeed the analysis passes with `(b_x, b_y) < (3.0, 1.75)` (and fails with `b_x < 3.58`, `2^3.58 = 11.96`) -/
+theorem mul_bx_headroom :
+    (Dalek.Gen.Avx2Field.mul.norm (Avx2Field.lanes 8 1 ++ Avx2Field.lanes 3363 1000)).isSome = true ∧
+    (Dalek.Gen.Avx2Field.mul.norm (Avx2Field.lanes 12 1 ++ Avx2Field.lanes 3363 1000)).isSome = false := by
   decide +kernel
 
-/-- `square_and_negate_D`: `b < 1.5` is what the documentation requires; the analysis still passes at `b < 1.75`
-(`19 x` fits a u32 lane) and fails at `b < 2.0` -/
-theorem square_bounds :
+/-- `square_and_negate_D`: the documented `b < 1.5` is conservative (it compares every `z_i` with the smallest limb
+of `p·2^37`, which is only subtracted from the odd, smaller, `z_i`): no lane wraps up to `b < 1.75`; at `b < 2` the
+D-lane subtraction can wrap -/
+theorem square_headroom :
     (Dalek.Gen.Avx2Field.square_and_negate_D.norm (Avx2Field.lanes 3363 1000)).isSome = true ∧
     (Dalek.Gen.Avx2Field.square_and_negate_D.norm (Avx2Field.lanes 4 1)).isSome = false := by decide +kernel
 
